@@ -10,8 +10,11 @@ c14_trap_<name>        for each of the four Trio traps the model treats as hide+
                        <name> is, as a string constant of its own, an element of the tuple that glue_trio's
                        `for trap in (...)` loop iterates, and the loop body's single customize() call is
                        customize(getattr(lowlevel, trap), hide=True, prune=True)
-c14_guard_reset_on_frame  in extract_iter, the body of `if isinstance(current, Frame):` (the branch that queues a Frame
-                       for elaboration) assigns `loops_since_progress = 0`
+c14_guard_reset_on_frame  in extract_iter, the body of the `if isinstance(<x>, Frame): ...; continue` branch (the one that
+                       queues a Frame for elaboration) assigns 0 to the no-progress counter; the counter is recognised
+                       by shape (the local incremented with `+= 1` and compared with `>`), not by name
+c14_options_per_thread ExtractOptions derives from threading.local and all its class-level attributes are immutable
+                       defaults (constants or cast(T, <constant>)): nothing mutable is shared between threads
 c14_wait_name          the to_thread glue tests `next_inner.funcname == "wait_task_rescheduled"`
 """
 import ast
@@ -36,7 +39,7 @@ def _is_true(node):
 
 def compute():
     facts = {"c14_children_for_task": False, "c14_stub_rule": False, "c14_wait_name": False,
-             "c14_guard_reset_on_frame": False}
+             "c14_guard_reset_on_frame": False, "c14_options_per_thread": False}
     for name in TRAP_NAMES:
         facts["c14_trap_" + name] = False
     gl = _parse("stackscope/_glue.py")
@@ -94,21 +97,56 @@ def compute():
     ex = _parse("stackscope/_extract.py")
     ei = _find_def(ex, "extract_iter")
     if ei is not None:
+        # the no-progress counter, by shape (whatever it is called): the local that is incremented
+        # with `+= 1` and compared with `>` (cf. srcfacts._counter_guard_const)
+        inc = {x.target.id for x in ast.walk(ei)
+               if isinstance(x, ast.AugAssign) and isinstance(x.op, ast.Add) and isinstance(x.target, ast.Name)
+               and isinstance(x.value, ast.Constant) and x.value.value == 1}
+        cmp_ = {x.left.id for x in ast.walk(ei)
+                if isinstance(x, ast.Compare) and isinstance(x.left, ast.Name) and len(x.ops) == 1
+                and isinstance(x.ops[0], ast.Gt)}
+        counters = inc & cmp_
         hits = []
-        for x in ast.walk(ei):
-            if (isinstance(x, ast.If) and isinstance(x.test, ast.Call) and isinstance(x.test.func, ast.Name)
-                    and x.test.func.id == "isinstance" and len(x.test.args) == 2
-                    and isinstance(x.test.args[0], ast.Name) and x.test.args[0].id == "current"
-                    and isinstance(x.test.args[1], ast.Name) and x.test.args[1].id == "Frame"):
-                resets = any(isinstance(st, ast.Assign) and len(st.targets) == 1
-                             and isinstance(st.targets[0], ast.Name) and st.targets[0].id == "loops_since_progress"
-                             and isinstance(st.value, ast.Constant) and st.value.value == 0
-                             for st in x.body)
-                appends = any(isinstance(c, ast.Call) and isinstance(c.func, ast.Attribute) and c.func.attr == "append"
-                              and isinstance(c.func.value, ast.Name) and c.func.value.id == "to_elaborate"
-                              for st in x.body for c in ast.walk(st))
-                hits.append(resets and appends)
+        if len(counters) == 1:
+            counter = next(iter(counters))
+            for x in ast.walk(ei):
+                # the branch that queues a Frame for elaboration: `if isinstance(<x>, Frame): ...; continue`
+                if (isinstance(x, ast.If) and isinstance(x.test, ast.Call) and isinstance(x.test.func, ast.Name)
+                        and x.test.func.id == "isinstance" and len(x.test.args) == 2
+                        and isinstance(x.test.args[0], ast.Name)
+                        and isinstance(x.test.args[1], ast.Name) and x.test.args[1].id == "Frame"
+                        and any(isinstance(st, ast.Continue) for st in x.body)):
+                    resets = any(isinstance(st, ast.Assign) and len(st.targets) == 1
+                                 and isinstance(st.targets[0], ast.Name) and st.targets[0].id == counter
+                                 and isinstance(st.value, ast.Constant) and st.value.value == 0
+                                 and not isinstance(st.value.value, bool)
+                                 for st in x.body)
+                    appends = any(isinstance(c, ast.Call) and isinstance(c.func, ast.Attribute) and c.func.attr == "append"
+                                  for st in x.body for c in ast.walk(st))
+                    hits.append(resets and appends)
         facts["c14_guard_reset_on_frame"] = hits == [True]
+    # ExtractOptions keeps nothing that is shared between threads: a threading.local subclass
+    # whose class-level attributes are immutable defaults (constants / cast(T, <constant>))
+    eo = _find_def(ex, "ExtractOptions")
+    if eo is not None:
+        local = any(isinstance(b, ast.Attribute) and b.attr == "local" and isinstance(b.value, ast.Name)
+                    and b.value.id == "threading" for b in eo.bases)
+
+        def immutable(v):
+            if v is None or isinstance(v, ast.Constant):
+                return True
+            if isinstance(v, ast.Tuple):
+                return all(immutable(e) for e in v.elts)
+            return (isinstance(v, ast.Call) and isinstance(v.func, ast.Name) and v.func.id == "cast"
+                    and len(v.args) == 2 and isinstance(v.args[1], ast.Constant))
+
+        ok = True
+        for st in eo.body:
+            if isinstance(st, ast.AnnAssign):
+                ok = ok and immutable(st.value)
+            elif isinstance(st, ast.Assign):
+                ok = ok and immutable(st.value)
+        facts["c14_options_per_thread"] = local and ok
     ec = _find_def(ex, "extract_child")
     if ec is not None:
         ifs = [s for s in ec.body if isinstance(s, ast.If)]
